@@ -84,6 +84,11 @@ type pipeObs struct {
 	WriteErr string   `json:"write_err,omitempty"`
 	Written  int      `json:"bytes_written"`
 	Harness  string   `json:"harness_problem,omitempty"`
+	// Hang: Ingest had not returned caseTimeout after the point at which it must return (every writer has closed its
+	// end: end of stream; or the callback has returned its error while the writer holds its end open). An ORACLE
+	// failure (C12: "end-of-stream is returned as an error rather than ignored", "delivery stops at the first
+	// callback error, which is returned"), confirmed by the framework through the replay mode before it counts.
+	Hang string `json:"hang,omitempty"`
 	// cancellation cases: the reader's descriptor was seen to be gone before the callback returned its error
 	CloserSeen bool `json:"closer_seen,omitempty"`
 }
@@ -245,7 +250,13 @@ func runPipe(tmp string, c pipeCase, idx int) pipeObs {
 		case <-deadline:
 			// unblock whatever is stuck: cancel the reader, open the FIFO from both sides
 			// without blocking so that pending open(2) calls return, close the writer
-			obs.Harness = fmt.Sprintf("case did not finish within %s (ingest returned: %v, writer finished: %v)", caseTimeout, gotIng, gotW)
+			if !gotIng && gotW && w.err == nil {
+				obs.Hang = fmt.Sprintf("every writer closed its end of the pipe (%d bytes written), Ingest had not returned %s later: end of stream ignored", w.n, caseTimeout)
+			} else if !gotIng && hold {
+				obs.Hang = fmt.Sprintf("the callback was to fail at record %d while the writer keeps its end open, Ingest had not returned after %s", c.FailAt, caseTimeout)
+			} else {
+				obs.Harness = fmt.Sprintf("case did not finish within %s (ingest returned: %v, writer finished: %v)", caseTimeout, gotIng, gotW)
+			}
 			cancel()
 			if fd, err := syscall.Open(path, syscall.O_RDWR|syscall.O_NONBLOCK, 0); err == nil {
 				defer syscall.Close(fd)
